@@ -61,6 +61,23 @@ def reference(sig):
         return sig, pack(ex)
 
 
+def nested_fun(inner):
+    return lambda t: fun(t) + 0.125 * inner(t)[0]
+
+
+def reference_nested(sig):
+    """the nested computation with two objects that share nothing, in a fresh interpreter"""
+    vlib.use_repo()
+    import numdifftools as nd
+    (m, n, o, g, x), (im, in_, io, ig) = sig
+    try:
+        inner = nd.Derivative(fun, step=make_gen(ig), method=im, n=in_, order=io, full_output=True)
+        d = nd.Derivative(nested_fun(inner), step=make_gen(g), method=m, n=n, order=o, full_output=True)
+        return sig, pack(d(xval(x)))
+    except Exception as ex:
+        return sig, pack(ex)
+
+
 def fresh_map(fn, items):
     import multiprocessing as mp
     ctx = mp.get_context('fork')
@@ -108,6 +125,25 @@ def replay_histories(batch):
                     fdm.FD_RULES.clear()
                 elif kind == 'prepopulate':
                     fdm.LogRule(n=op['n'], method=op['m'], order=op['o']).rule(op['ratio'][0] / op['ratio'][1])
+                elif kind == 'nested':
+                    d, inner = objs[op['obj']], objs[op['inner']]
+                    if (d.method, d.n, d.order, inner.method, inner.n, inner.order) != (op['m'], op['n'], op['o'], op['im'], op['in'], op['io']):
+                        bad = (step, 'object projection', 'objects report %r, specification %r' % ((d.method, d.n, d.order, inner.method, inner.n, inner.order), op))
+                        break
+                    keep = d.fun
+                    d.fun = nested_fun(inner)
+                    try:
+                        got = pack(d(xval(op['x'])))
+                    except Exception as ex:
+                        got = pack(ex)
+                    finally:
+                        d.fun = keep
+                    ncalls += 1
+                    sig = ((op['m'], op['n'], op['o'], op['gen'], op['x']), (op['im'], op['in'], op['io'], op['igen']))
+                    if got != refs[sig]:
+                        bad = (step, 'result:nested', 'object %r differentiating a function that calls object %r (same interpreter, generators %r/%r) returns %s; two unshared objects in a fresh interpreter give %s' % (
+                            sig[0][:3], sig[1][:3], op['gen'], op['igen'], describe(got), describe(refs[sig])))
+                        break
                 elif kind == 'call':
                     d = objs[op['obj']]
                     if (d.method, d.n, d.order) != (op['m'], op['n'], op['o']):
@@ -126,9 +162,12 @@ def replay_histories(batch):
                 bad = (step, 'raises', '%s raised %s: %s' % (kind, type(ex).__name__, ex))
                 break
             # projected state after the operation
-            keys = sorted((float(k[0]), int(k[1]), int(k[2])) for k in fdm.FD_RULES)
+            try:
+                keys = sorted((float(k[0]), int(k[1]), int(k[2])) for k in fdm.FD_RULES)
+            except (TypeError, ValueError, IndexError):
+                keys = None          # the cache is not keyed by (step_ratio, parity, num_terms) tuples: projection unavailable, results still compared
             want = sorted((exact(k[0][0] / k[0][1]), k[1], k[2]) for k in e['cache'])
-            if keys != want:
+            if keys is not None and keys != want:
                 bad = (step, 'cache', 'rule cache holds keys %r, specification %r' % (keys, want))
                 break
             gens = e['gens']
@@ -138,8 +177,8 @@ def replay_histories(batch):
                 if gen is None:
                     continue
                 s = gen._state
-                real = (np.asarray(s.x).tolist(), s.method, int(s.n), int(s.order))
-                spec = (np.asarray(xval(st[0])).tolist(), st[1], st[2], st[3])
+                real = (np.asarray(s.x).tolist() if st[0] else None, s.method, int(s.n), int(s.order))
+                spec = (np.asarray(xval(st[0])).tolist() if st[0] else None, st[1], st[2], st[3])
                 if real != spec:
                     bad = (step, 'generator state', 'generator %d remembers %r, specification %r' % (gid, real, spec))
                     break
@@ -181,7 +220,9 @@ def run(tier, rep):
     if len(hists) < 100:
         raise vlib.MachineryError('too few histories generated: %d' % len(hists))
     sigs = sorted({(e['op']['m'], e['op']['n'], e['op']['o'], e['op']['gen'], e['op']['x']) for _, h in hists for e in h if e['op']['op'] == 'call'})
+    nsigs = sorted({((o['m'], o['n'], o['o'], o['gen'], o['x']), (o['im'], o['in'], o['io'], o['igen'])) for _, h in hists for e in h for o in [e['op']] if o['op'] == 'nested'})
     refs = dict(fresh_map(reference, sigs))
+    refs.update(fresh_map(reference_nested, nsigs))
     # a second, independent fresh evaluation of every reference (the reference itself must be reproducible)
     refs2 = dict(fresh_map(reference, list(reversed(sigs))))
     for s in sigs:
@@ -207,7 +248,7 @@ def run(tier, rep):
     states, trans, perr = vlib.merge_tlc([exh, sim] + tstats.pop('tlc'))
     opsc = collections.Counter(e['op']['op'] for _, h in hists for e in h)
     cov = dict(states=max(states, 1), transitions=max(trans, 1), traces_validated_against_impl=len(hists) + tstats['schedules'],
-               histories=len(hists), calls_compared_bitwise=ncalls, distinct_call_signatures=len(sigs), ops=dict(opsc),
+               histories=len(hists), calls_compared_bitwise=ncalls, distinct_call_signatures=len(sigs), distinct_nested_signatures=len(nsigs), ops=dict(opsc),
                samples=[[e['op'] for e in hists[0][1]]], evaluations=ncalls + tstats['thread_calls'],
                distinct_nontrivial=len({json.dumps([e['op'] for e in h], sort_keys=True) for _, h in hists if sum(1 for e in h if e['op']['op'] == 'call') >= 2}),
                rule='TLC simulation of spec/History.tla, histories of 12 operations over 3 objects / 12 configurations / 2 shared generators; non-trivial = at least two calls',
